@@ -6,6 +6,7 @@ import MaestroVerif.Lemmas.ExpandAdj
 import MaestroVerif.Lemmas.ExpandInv
 import MaestroVerif.Lemmas.ExpandNodes
 import MaestroVerif.Lemmas.ExpandGate
+import MaestroVerif.Lemmas.ExpandComplete
 
 /-!
 # C08 — Parameter expansion creates exactly the right instances and edges
@@ -17,9 +18,11 @@ The theorems below are about the named pieces of that model (`usesParam`,
 from, and (`C08_instance_depends_exactly`, `C08_unparameterised_depends_exactly`,
 `C08_combos_record`) about what creating one instance does to the graph: its dependency set is
 exactly the parents the property names, every other dependency set is untouched, the instance
-carries its combination's values.  The statement about the finished graph as a whole ("nodes and
-edges are exactly the declarative expansion") is evaluated on the real graph by the expansion
-monitor; it is not one refinement theorem - the level note says so.
+carries its combination's values.  About the finished graph as a whole: instance names are pairwise
+distinct, no edge dangles, every gating dependency is an adjacency edge, and
+(`C08_every_combination_instantiated`) every staged step has an instance for every row of the table.
+That the finished dependency sets are exactly the declarative expansion is evaluated on the real
+graph by the expansion monitor; it is not one refinement theorem - the level note says so.
 -/
 namespace MaestroVerif.C08
 open MaestroVerif.Expand MaestroVerif.Subst
@@ -480,5 +483,65 @@ theorem C08_counterexample_name_collision :
          && getAssoc r.adj "pa_1".toList == ["both_1.2.3".toList]
          && getAssoc r.deps "both_1.2.3".toList == ["pa_1".toList]
      | .error _ => false) = true := by decide +kernel
+
+/-- **every combination gets its instance, in the finished graph** (completeness of the expansion):
+`stageSS` is the staging loop with the whole staging state as its result and `stage` is its graph;
+for every step `k` that was staged - every key of the used-parameter table other than `_source` -
+the finished graph holds an instance called `k` when `k` uses no parameter, and an instance
+`k_<labels of the used parameters>` for *every* row of the parameter table otherwise: no
+combination is dropped.  Hypothesis `NoClash`: no instance name of a parameterised step is a step
+name (or `_source`); otherwise the row is skipped by `if combo_str in self.step_combos: continue`,
+which is part of the known finding C08-name-collision. -/
+theorem C08_every_combination_instantiated (spec : Spec) (hc : NoClash spec)
+    (ord : List Str → List Str) (sf : SS) (h : stageSS spec ord = .ok sf)
+    (k : Str) (hk : sf.used.any (·.1 == k) = true) (hsrc : k ≠ SOURCE) :
+    stage spec ord = .ok sf.g ∧
+    (∃ st, st ∈ spec.steps ∧ st.name = k) ∧
+    (if (getAssoc sf.used k).isEmpty then ∃ i, i ∈ sf.g.insts ∧ i.name = k
+     else ∀ row, row < nRows spec.params →
+       ∃ i, i ∈ sf.g.insts ∧ i.name = instName k (getAssoc sf.used k) (combo spec.params row)) := by
+  have hst : stage spec ord = .ok sf.g := by rw [stage_eq_stageSS, h]
+  have hI := stageSS_instantiated spec hc ord sf h
+  have hN := stage_nodesAreInsts spec ord sf.g hst
+  have hmem := hI.1 k (Or.inr hk)
+  have hstep : ∃ st, st ∈ spec.steps ∧ st.name = k := by
+    rcases List.mem_cons.mp hmem with e | e
+    · exact absurd e hsrc
+    · obtain ⟨st, h1, h2⟩ := List.mem_map.mp e
+      exact ⟨st, h1, h2⟩
+  refine ⟨hst, hstep, ?_⟩
+  have h2 := hI.2 k hk
+  split
+  · rename_i he
+    simp only [he, ↓reduceIte] at h2
+    rcases hN k h2 with e | e
+    · exact absurd e hsrc
+    · exact e
+  · rename_i he
+    simp only [he] at h2
+    intro row hrow
+    rcases hN _ (h2 row hrow) with e | e
+    · exfalso
+      obtain ⟨st, h1, rfl⟩ := hstep
+      apply hc st h1 (getAssoc sf.used st.name) row (by simpa using he)
+      rw [e]; exact List.mem_cons_self ..
+    · exact e
+
+/-- `NoClash` follows from a check on the step names alone: no step name followed by `_` begins
+`_source` or a step name -/
+theorem C08_noClash_decidable (spec : Spec) (h : noClashB spec = true) : NoClash spec :=
+  noClash_of_noClashB spec h
+
+/-! non-vacuity: the demonstration study meets `NoClash`, staging succeeds, `run` is recorded with
+the parameter `SIZE` and has its two instances, `pre` and `post` have one each -/
+example : noClashB demoSpec = true := by decide +kernel
+
+example : (match stageSS demoSpec id with
+    | .ok sf =>
+      sf.used.map (·.1) == ["_source".toList, "pre".toList, "run".toList, "post".toList]
+        && getAssoc sf.used "run".toList == ["SIZE".toList]
+        && sf.g.insts.map (·.name) == ["pre".toList, "run_SIZE.10".toList, "run_SIZE.20".toList, "post".toList]
+    | .error _ => false) = true := by decide +kernel
+
 
 end MaestroVerif.C08
